@@ -19,6 +19,8 @@ pub enum Op {
     SetOption(String, usize),
     BreakGrammar(usize),
     BreakLexer,
+    /// the lexer gets a %grmtools key nothing reads: refused late, after everything else is done
+    BreakLexerLate,
     Build,
     /// a source file that cannot be read as text: 0/1 = the grammar (not UTF-8 / deleted),
     /// 2/3 = the lexer (not UTF-8 / deleted)
@@ -83,6 +85,9 @@ const LEXERS: &[&str] = &[
     "%%\n[0-9]+ 'INT'\n\\+ '+'\n- '-'\n\\* 'STAR'\n[ \\t\\n]+ ;\n",
 ];
 const BROKEN_LEXER: &str = "%%\n[0-9+ 'INT'\n";
+/// a lexer that is only refused at the end of its build (a key of its %grmtools section that
+/// nothing reads) - in the one-call flow after the parser has been built
+const LEXER_UNUSED_KEY: &str = "%grmtools{case_insensitve}\n%%\n[0-9]+ 'INT'\n\\+ '+'\n- '-'\n\\( '('\n\\) ')'\n[ \\t\\n]+ ;\n";
 
 const OPTIONS: &[(&str, usize)] = &[
     ("parser_mod_name", 3),
@@ -249,7 +254,7 @@ impl Prop for C18 {
         // or to another value), so that "set, build, set back, build" is common
         let mut touched_opts: Vec<usize> = vec![];
         for _ in 0..n {
-            let op = match ch.weighted(&[4, 2, 1, 4, 2, 1, 3, 1, 1]) {
+            let op = match ch.weighted(&[4, 2, 1, 4, 2, 2, 3, 1, 1]) {
                 0 => Op::EditGrammar(ch.pick(NGRAMMARS)),
                 1 => Op::EditLexer(ch.pick(LEXERS.len())),
                 2 => Op::Touch,
@@ -265,7 +270,13 @@ impl Prop for C18 {
                     }
                 }
                 4 => Op::BreakGrammar(ch.pick(BROKEN_GRAMMARS.len())),
-                5 => Op::BreakLexer,
+                5 => {
+                    if ch.chance(1, 2) {
+                        Op::BreakLexer
+                    } else {
+                        Op::BreakLexerLate
+                    }
+                }
                 6 => Op::Build,
                 7 => Op::EditGrammarAtOutputTime(ch.pick(NGRAMMARS)),
                 _ => Op::Unreadable(ch.pick(4)),
@@ -281,13 +292,13 @@ impl Prop for C18 {
         serde_json::to_value(Case { ops, probe_one_call_stale_parser: false, probe_test_files_not_rerun: false }).unwrap()
     }
     fn rule(&self) -> String {
-        "Histories of 1-8 operations (each possibly followed by Build, always ending in Build) over {EditGrammar(8 variants, one with 260 tokens that u8 storage refuses by panic, one with %grmtools{test_files} and a test input next to the grammar), EditGrammarAtOutputTime (an edit whose file time equals that of the parser module generated before), EditLexer(6 variants, two lacking tokens some grammars use), Touch, SetOption(18 builder options incl. mod names, visibility (all variants, pub(in ..) with two different paths), edition, recoverer, yacckind, serialisation format, error_on_conflicts, warnings flags, lexer flags, strictness about tokens missing from the lexer / from the parser, the flow: two builders in turn or the one-call CTLexerBuilder::lrpar_config, grammar_path switched between two files of the same leaf name in different directories, grammar_path naming the file through a symbolic link, and the storage type u32/u16/u8 of the builders' lexer types), BreakGrammar(4 kinds: syntax error, unknown rule, broken %grmtools section, unexpected conflicts), BreakLexer, Unreadable (the grammar or the lexer file is not UTF-8, or is deleted), Build}. Every Build runs the real CTParserBuilder/CTLexerBuilder in a process of its own; file times come from a logical clock. Oracle after every Build: successful => parser and lexer modules byte-identical (timestamp masked) to a clean build of the same sources/settings into an empty directory; nothing changed since the last successful build => regenerated()==false and files untouched; grammar text or a parser-relevant option changed => regenerated()==true; failed => no generated file from the earlier sources left at the output path. Evaluation = one Build step. Non-trivial: a change between two builds or a failing build after a successful one; distinct by hash(history).".into()
+        "Histories of 1-8 operations (each possibly followed by Build, always ending in Build) over {EditGrammar(8 variants, one with 260 tokens that u8 storage refuses by panic, one with %grmtools{test_files} and a test input next to the grammar), EditGrammarAtOutputTime (an edit whose file time equals that of the parser module generated before), EditLexer(6 variants, two lacking tokens some grammars use), Touch, SetOption(18 builder options incl. mod names, visibility (all variants, pub(in ..) with two different paths), edition, recoverer, yacckind, serialisation format, error_on_conflicts, warnings flags, lexer flags, strictness about tokens missing from the lexer / from the parser, the flow: two builders in turn or the one-call CTLexerBuilder::lrpar_config, grammar_path switched between two files of the same leaf name in different directories, grammar_path naming the file through a symbolic link, and the storage type u32/u16/u8 of the builders' lexer types), BreakGrammar(4 kinds: syntax error, unknown rule, broken %grmtools section, unexpected conflicts), BreakLexer (a syntax error, or a %grmtools key nothing reads, which is only refused at the end of the lexer's build), Unreadable (the grammar or the lexer file is not UTF-8, or is deleted), Build}. Every Build runs the real CTParserBuilder/CTLexerBuilder in a process of its own; file times come from a logical clock. Oracle after every Build: successful => parser and lexer modules byte-identical (timestamp masked) to a clean build of the same sources/settings into an empty directory; nothing changed since the last successful build => regenerated()==false and files untouched; grammar text or a parser-relevant option changed => regenerated()==true; failed => no generated file from the earlier sources left at the output path. Evaluation = one Build step. Non-trivial: a change between two builds or a failing build after a successful one; distinct by hash(history).".into()
     }
     fn assumptions(&self) -> Vec<String> {
         vec!["a Touch (same bytes, newer time) may or may not regenerate".into()]
     }
     fn required_classes(&self, _tier: Tier) -> Vec<&'static str> {
-        vec!["build-ok", "build-failed", "unchanged-rebuild", "change-between-builds", "fail-after-success", "option-change", "grammar-edited-at-output-time", "source-unreadable"]
+        vec!["build-ok", "build-failed", "unchanged-rebuild", "change-between-builds", "fail-after-success", "option-change", "grammar-edited-at-output-time", "source-unreadable", "lexer-refused-late"]
     }
     fn evaluate(&self, case: &Value) -> Outcome {
         let case: Case = serde_json::from_value(case.clone()).unwrap();
@@ -391,6 +402,12 @@ impl Prop for C18 {
                     ltext = LEXERS[*k].to_string();
                     std::fs::write(&lp, &ltext).unwrap();
                     set_mtime(&lp, clock);
+                }
+                Op::BreakLexerLate => {
+                    ltext = LEXER_UNUSED_KEY.to_string();
+                    std::fs::write(&lp, &ltext).unwrap();
+                    set_mtime(&lp, clock);
+                    o.class("lexer-refused-late");
                 }
                 Op::BreakLexer => {
                     ltext = BROKEN_LEXER.to_string();
@@ -574,7 +591,11 @@ impl Prop for C18 {
                                     }
                                 };
                                 let here = std::fs::read_to_string(&po).unwrap_or_default();
-                                let stale = if cr.parser_ok { clean_p.map(|c| mask_parser(&c)) != Some(mask_parser(&here)) } else { true };
+                                // (the reference build leaves a parser module exactly when the parser
+                                // half succeeds - also when, in the one-call reference a test_files
+                                // grammar needs, the lexer is refused afterwards)
+                                let _ = cr.parser_ok;
+                                let stale = clean_p.map(|c| mask_parser(&c)) != Some(mask_parser(&here));
                                 if stale {
                                     // the lexer is parsed before the parser builder is even
                                     // configured: with an invalid .l file the parser module of
